@@ -130,6 +130,40 @@ func ParamCases(seed int64, n int) []Case {
 	rb.Comp("requestBodies", "Blob", M{"content": M{"application/octet-stream": M{"schema": bin}}})
 	rb.Op("/blob", "patch", M{"requestBody": Ref("requestBodies", "Blob"), "parameters": L{ParamNode("tags", "query", false, Arr(Prim("string", "")))}})
 	out = append(out, Case{ID: "params-raw-body", Family: "params", Spec: rb.Root, Flags: Flags{Client: true}, Safe: true, Label: map[string]string{"set": "raw-body"}})
+	// parameter names as they are spelled in the wild: capitals inside a header
+	// word, all lower case, brackets / dollar / blank in query names
+	nm := NewDoc("names")
+	nm.Op("/h", "get", M{"parameters": L{
+		ParamNode("X-Request-ID", "header", true, Prim("string", "")), ParamNode("X-API-Key", "header", false, Prim("integer", "int64")),
+		ParamNode("x-lower-case", "header", false, Prim("string", "")), ParamNode("X-B3-TraceFlags", "header", false, Prim("boolean", "")),
+	}})
+	nm.Op("/q", "get", M{"parameters": L{
+		ParamNode("page[size]", "query", true, Prim("integer", "int32")), ParamNode("$filter", "query", false, Prim("string", "")),
+		ParamNode("sort by", "query", false, Prim("string", "")), ParamNode("a.b-c_d~e", "query", false, Prim("string", "")), ParamNode("Ünï", "query", false, Prim("string", "")),
+	}})
+	out = append(out, Case{ID: "params-names-in-the-wild", Family: "params", Spec: nm.Root, Flags: Flags{Client: true}, Safe: true, Label: map[string]string{"set": "names"}})
+	// serialisation keywords on array parameters (goag ignores them: the inline
+	// and the referenced form must ignore them alike)
+	ex := NewDoc("explode")
+	ex.Comp("schemas", "Ids", Arr(Prim("integer", "int64")))
+	ex.Comp("schemas", "Words", Arr(Prim("string", "")))
+	pe := func(name string, schema any, explode bool, style string) M {
+		p := ParamNode(name, "query", false, schema)
+		p["explode"] = explode
+		if style != "" {
+			p["style"] = style
+		}
+		return p
+	}
+	ex.Op("/inline", "get", M{"parameters": L{pe("ids", Arr(Prim("integer", "int64")), false, "form"), pe("tags", Arr(Prim("string", "")), false, ""), pe("on", Arr(Prim("string", "")), true, "form")}})
+	ex.Op("/ref", "get", M{"parameters": L{pe("ids", Ref("schemas", "Ids"), false, "form"), pe("tags", Ref("schemas", "Words"), false, ""), pe("on", Ref("schemas", "Words"), true, "form")}})
+	out = append(out, Case{ID: "params-explode-style", Family: "params", Spec: ex.Root, Flags: Flags{Client: true}, Safe: true, Label: map[string]string{"set": "explode"}})
+	// query parameters on methods that usually carry bodies (and here carry none)
+	pm := NewDoc("postquery")
+	for _, m := range []string{"post", "put", "patch", "delete"} {
+		pm.Op("/w", m, M{"parameters": L{ParamNode("token", "query", true, Prim("string", "")), ParamNode("n", "query", false, Prim("integer", "int32")), ParamNode("tags", "query", false, Arr(Prim("string", "")))}})
+	}
+	out = append(out, Case{ID: "params-query-on-post", Family: "params", Spec: pm.Root, Flags: Flags{Client: true}, Safe: true, Label: map[string]string{"set": "postquery"}})
 	// arrays whose items are component schemas
 	ai := NewDoc("arrayitems")
 	ai.Comp("schemas", "Tag", Prim("string", ""))
